@@ -181,8 +181,8 @@ Print Assumptions C19_outline_complete_full_refuted.
      repaired) has its own "local" entry nm whose s_decl is l, function-valued iff the declaration is, and then its
      range is the Union of the function's Loc and the identifier; by C19_range_contains_decl the range contains l.
    * `asg_block nm b = true`: nm occurs as an assignment target `nm = ...` / `function nm() end` / `_G.nm = ...` at a place the
-     analysis visits (anywhere, any depth; not inside the surplus values of `local a = v1, v2, v3`, which LuaHelper
-     never analyses); `chk_block (not_named nm) any_target b = true`: no local, parameter or loop variable of the file
+     analysis visits (anywhere, any depth; since fixes/C20-local-surplus.diff also inside the surplus values of
+     `local a = v1, v2, v3`, which LuaHelper used not to analyse); `chk_block (not_named nm) any_target b = true`: no local, parameter or loop variable of the file
      is named nm, table constructors / if statements have as many values as keys / blocks as conditions (parser
      invariant).  Then the outline has a non-local entry nm (see C19_outline_globals_lexical for the lexical guard).
    * For any boolean predicate pt that holds of (name, identifier Loc, Loc of the function literal if the value at the
@@ -239,8 +239,8 @@ Print Assumptions C19_outline_covers_locals.
    scope frames - SymbolsSig - and that the global table only grows - SymbolsGlobals).
    `asgU_block nm b = true`: nm occurs as an assignment target at a visited place where NO enclosing `local`,
    `local function`, parameter or loop variable named nm is in scope (Lua scoping: a `local` is in scope in the
-   statements after it, `local function` also in its own body, `repeat` conditions see the body's locals; one
-   pessimistic corner: in `local a, b = e0, e1, ..` the values after the first count as inside the scope of a and b).
+   statements after it - NOT in its own values, whatever their number (fixes/C07-multi-local-order.diff,
+   C20-local-surplus.diff) -, `local function` also in its own body, `repeat` conditions see the body's locals).
    `shp_block b = true`: parser shape (as many table values as keys, as many `if` blocks as conditions).
    This strengthens the second clause of C19_outline_complete_partial from "bound nowhere in the file" to
    "not bound at the place of the assignment" - the reference binder's notion of a global variable. *)
